@@ -20,8 +20,11 @@ func (p *Pool[T]) Get() T {
 		var x T
 		return x
 	}
-	p.pool.New = func() any { return p.New() }
-	return p.pool.Get().(T)
+	x := p.pool.Get()
+	if x == nil {
+		return p.New()
+	}
+	return x.(T)
 }
 
 // Put adds x to the pool.
